@@ -297,6 +297,39 @@ def log_inv(k, n_now, arr_now, n0, lst):
     return z3.And(n_now == n0 + k, z3.ForAll([m], z3.Implies(z3.And(m >= 0, m < k), z3.Select(arr_now, n0 + m) == z3.Select(larr, m))))
 
 
+def tick_roles(f):
+    """Roles of clck_tick's locals and loops, resolved from the AST by use: the loop over self._tx_queue partitions into lists that are
+    appended to; the list assigned to self._tx_queue afterwards is `wait`; the list iterated with a forward_msg call is `emit`; the
+    remaining one, iterated with a logging call, is `drop`."""
+    import ast
+    from engine.pyvc.interp import func_ast
+    node = func_ast(f)[0]
+    loops = [n for n in ast.walk(node) if isinstance(n, ast.For) and hasattr(n, "_ordinal")]
+
+    def calls(n, attr):
+        return any(isinstance(c, ast.Call) and isinstance(c.func, ast.Attribute) and c.func.attr == attr for c in ast.walk(n))
+    part = [l for l in loops if isinstance(l.iter, ast.Attribute) and l.iter.attr == "_tx_queue"]
+    if len(part) != 1 or not isinstance(part[0].target, ast.Name):
+        raise Unsupported("clck_tick: no single loop over self._tx_queue")
+    appended = []
+    for c in ast.walk(part[0]):
+        if isinstance(c, ast.Call) and isinstance(c.func, ast.Attribute) and c.func.attr == "append" and isinstance(c.func.value, ast.Name):
+            if c.func.value.id not in appended:
+                appended.append(c.func.value.id)
+    wait = [a.value.id for a in ast.walk(node) if isinstance(a, ast.Assign) and isinstance(a.value, ast.Name) and a.value.id in appended
+            and any(isinstance(t, ast.Attribute) and t.attr == "_tx_queue" for t in a.targets)]
+    emit_l = [l for l in loops if isinstance(l.iter, ast.Name) and l.iter.id in appended and calls(l, "forward_msg")]
+    drop_l = [l for l in loops if isinstance(l.iter, ast.Name) and l.iter.id in appended and l not in emit_l]
+    if len(appended) != 3 or len(set(wait)) != 1 or len(emit_l) != 1 or len(drop_l) != 1:
+        raise Unsupported("clck_tick: cannot resolve the drop/emit/wait roles of its locals (lists %s)" % appended)
+    emit, drop = emit_l[0].iter.id, drop_l[0].iter.id
+    if len({emit, drop, wait[0]}) != 3:
+        raise Unsupported("clck_tick: roles are not distinct")
+    vs = [l.target.id for l in (part[0], emit_l[0], drop_l[0]) if isinstance(l.target, ast.Name)]
+    return {"drop": drop, "emit": emit, "wait": wait[0], "vars": vs,
+            "loops": {"partition": part[0]._ordinal, "emit": emit_l[0]._ordinal, "stale": drop_l[0]._ordinal}}
+
+
 def build_clck_tick(run, prop, E):
     tr = toolkit("transceiver")
     bf = toolkit("burst_fwd")
@@ -341,19 +374,23 @@ def build_clck_tick(run, prop, E):
                    "logging.error": warn_summary, "logging.critical": warn_summary,
                    "data_msg.TxMsg.desc_hdr": lambda E, f_, a, k: FmtStr("desc_hdr", (a[0],))}
 
+    # the locals of clck_tick are bound by what the code does with them, not by their names (a renamed local keeps the contract attached)
+    R = tick_roles(f)
+    N_DROP, N_EMIT, N_WAIT = R["drop"], R["emit"], R["wait"]
+
     def lists_of(fr):
-        return {c: (lst_len(fr.locals[nm]), lst_arr(fr.locals[nm])) for c, nm in ((0, "drop"), (1, "emit"), (2, "wait"))}
+        return {c: (lst_len(fr.locals[nm]), lst_arr(fr.locals[nm])) for c, nm in ((0, N_DROP), (1, N_EMIT), (2, N_WAIT))}
 
     # loop 1: partition
     def havoc1(E, fr, i):
-        for nm in ("drop", "emit", "wait"):
+        for nm in (N_DROP, N_EMIT, N_WAIT):
             ln = E.fresh_int(nm + ".len")
             s = mk_queue(E, z3.Array(E.fresh(nm + ".ids"), I, I), ln)
             fr.locals[nm] = s
         E.ghost["dest"] = z3.Array(E.fresh("dest"), I, I)
         E.ghost["src"] = {c: z3.Array(E.fresh("src%d" % c), I, I) for c in (0, 1, 2)}
         E.ghost["pre_lists"] = lists_of(fr)
-        fr.locals.pop("msg", None)
+        fr.locals.pop(R["vars"][0], None)
 
     def inv1(E, fr, i):
         q = E.ghost["self"].attrs["_tx_queue"]
@@ -374,16 +411,17 @@ def build_clck_tick(run, prop, E):
         def havoc(E, fr, k):
             E.ghost[nkey] = E.fresh_int(nkey)
             E.ghost[akey] = z3.Array(E.fresh(akey), I, I)
-            fr.locals.pop("msg", None)
+            for v in R["vars"]:
+                fr.locals.pop(v, None)
 
         def inv(E, fr, k):
             x = fr.locals[lst_name]
             return log_inv(k, E.ghost[nkey], E.ghost[akey], n0, (lst_len(x), lst_arr(x)))
         return LoopSpec(name, havoc, inv)
     qn = "transceiver.Transceiver.clck_tick"
-    E.loop_specs = {(qn, 1): LoopSpec("partition_loop", havoc1, inv1, facts=facts1, ghost_step=step1),
-                    (qn, 2): mk_log_loop("emit_loop", "emit", "fw.n", "fw.arr", fw_n0, fw_arr0),
-                    (qn, 3): mk_log_loop("stale_loop", "drop", "st.n", "st.arr", st_n0, st_arr0)}
+    E.loop_specs = {(qn, R["loops"]["partition"]): LoopSpec("partition_loop", havoc1, inv1, facts=facts1, ghost_step=step1),
+                    (qn, R["loops"]["emit"]): mk_log_loop("emit_loop", N_EMIT, "fw.n", "fw.arr", fw_n0, fw_arr0),
+                    (qn, R["loops"]["stale"]): mk_log_loop("stale_loop", N_DROP, "st.n", "st.arr", st_n0, st_arr0)}
     running = T.fb("t.", "running")
 
     def setup(E):
